@@ -309,8 +309,18 @@ func RunXport(t *testing.T, p *plan.Plan, keepLog int) *Result {
 				wg.Add(1)
 				go func() { defer wg.Done(); runExhaust(h, ups[0], w) }()
 			}
-			go func() { wg.Wait(); s.Logf("calls_done", ""); s.Stop() }()
+			// (a call that outlives the horizon must not stop the clock of the
+			// closing phase below)
+			var runOver atomic.Bool
+			go func() {
+				wg.Wait()
+				s.Logf("calls_done", "")
+				if !runOver.Load() {
+					s.Stop()
+				}
+			}()
 			s.Run(us(xp.HorizonUs))
+			runOver.Store(true)
 			if s.Exhausted {
 				res.Exhausted = true
 			}
